@@ -37,3 +37,19 @@ Print Assumptions C15_depth_lt_max_all_histories.
 Theorem C15_examples : depth_examples_ok = true.
 Proof. exact depth_examples. Qed.
 Print Assumptions C15_examples.
+
+(* the exact boundary for EVERY limit D >= 1 and EVERY RFC 8259 document (any whitespace
+   layout, escapes, number shapes, nesting shape; integers within 64 bits, names without
+   U+0000), default and strict mode: accepted iff no value is enclosed by more than D-1
+   containers, otherwise the nesting-too-deep error *)
+From JC Require Import TokSyntax TokValid TokDepth TokDepthIff.
+Theorem C15_depth_accept_iff : forall sb D strictf s lead trail t,
+  wf_stx s -> all_ws lead = true -> all_ws trail = true ->
+  ints_in_range s = true -> names_nul_free s = true ->
+  tok_new D strictf false false = Some t ->
+  (Z.of_nat (nest s) < D ->
+     exists t', parse_ex_cstr sb t (render_doc lead s trail) = PR t' (Some (value sb s)) /\ err t' = TE_success) /\
+  (D <= Z.of_nat (nest s) ->
+     exists t', parse_ex_cstr sb t (render_doc lead s trail) = PR t' None /\ err t' = TE_depth).
+Proof. exact depth_accept_iff. Qed.
+Print Assumptions C15_depth_accept_iff.
